@@ -5,7 +5,7 @@
     not put a group atom on the oxygen), although its child ketone is witnessed on the oxygen. *)
 From Coq Require Import ZArith List Bool String.
 From FGV Require Import Base.Util Base.Bond Base.NX Model.Permute Model.Match Model.FGTree Model.FGDefaultCfg
-                        Model.Query Spec.Embedding Spec.FGCheck Spec.QuerySpec.
+                        Model.Query Spec.Embedding Spec.FGCheck Spec.QuerySpec Proofs.FGDefaultTree.
 Import ListNotations.
 Open Scope string_scope.
 Open Scope Z_scope.
@@ -41,3 +41,15 @@ Lemma descendant_witness :
   /\ witnessedb (Some "R") true acetone (fgconfig_init "ketone" "RC(R)=O" wit_RCRO (Some [1; 3]) [] None ["R"]) 2 = true
   /\ witnessedb (Some "R") true acetone (fgconfig_init "acyl" "RC=O" wit_RCO (Some [1]) [] None ["R"]) 2 = false.
 Proof. repeat split; vm_compute; reflexivity. Qed.
+
+(* the witness configuration is in the class of the known finding (both forms), the default
+   configuration is outside both *)
+Lemma witness_in_class :
+  match build_config_tree_from_list default_mapper wit_cfgs with
+  | Good tr => partial_group_atoms_classb (Some "R") true tr && path_open_classb (Some "R") true tr
+  | Bad _ => false
+  end = true.
+Proof. vm_compute. reflexivity. Qed.
+
+Lemma default_outside_class : kf_descendant_classb (Some "R") true default_tree_val = false.
+Proof. vm_compute. reflexivity. Qed.
